@@ -58,6 +58,9 @@ def cases(tier, seed):
         k = rng.randint(1, 4)
         shape = chgen.sort_shape(rng.sample(mons, k))
         coefs = [rng.choice([-3, -2, -1, 1, 2, 3, 5]) for _ in shape]
+        if i % 3 == 2:
+            # non-integral (dyadic, hence exact) float coefficients: tosympy keeps their value
+            coefs = [rng.choice([0.5, -1.5, 2.5, 0.25, -0.75, 2.0, 3]) for _ in shape]
         dshape = chgen.sort_shape(rng.sample(mons, rng.randint(1, 2)))
         dcoefs = [rng.choice([-2, -1, 1, 2, 3]) for _ in dshape]
         out.append(dict(kind='tosympy', shape=[list(m) for m in shape], coefs=coefs, dshape=[list(m) for m in dshape], dcoefs=dcoefs,
